@@ -104,12 +104,12 @@ def run(ctx):
     from .pairing import new_parser
     nlong = 0
     names_ = decoders()
-    for i in range(4 + 2 * 5 * len(mine.size_hints(256)) if ctx.quick else 40 + 2 * 5 * len(mine.size_hints(256))):
+    for i in range(4 + 2 * 5 * len(mine.size_hints(256, hi=70000)) if ctx.quick else 40 + 2 * 5 * len(mine.size_hints(256, hi=70000))):
         name = names_[rnd.randrange(len(names_))]
         S = pr.distinct_words(name, 'start')
         E = [0] + pr.distinct_words(name, 'end')[1:]
         base = pr.render(name, S, E, [])
-        hints = [h + d for h in mine.size_hints(256) for d in (-2, -1, 0, 1, 2)]
+        hints = [h + d for h in mine.size_hints(256, hi=70000) for d in (-2, -1, 0, 1, 2)]
         n = hints[i % len(hints)] if (hints and i % 2) else rnd.choice([4094, 4095, 4096, 4200, 8200, 16500, 65600][:4 if ctx.quick else 7])
         w = pr.w
         inner = []
